@@ -18,8 +18,8 @@ META = {
     "technique": "bounded-exhaustive enumeration of ssh_config texts x hostnames on the real SSHConfig, "
                  "compared with a reference implementation of first-obtained-value semantics",
     "text": "Every config of three stated families (S1: optional global setting + <=2 (quick) / <=3 (thorough) "
-            "Host/Match blocks over 39-59 headers x 7 one-line bodies; S2: <=2 blocks over 3-7 headers x all "
-            "ordered 1-2 settings out of 13 incl. %-tokens; S3: key case / '=' / quoting variants) x 4 hostnames: "
+            "Host/Match blocks over 39-59 headers x 5-7 one-line bodies; S2: <=2 blocks over 2-7 headers x all "
+            "ordered 1-2 settings out of 15 incl. %-tokens; S3: key case / '=' / quoting variants) x 4 hostnames: "
             "lookup() equals the reference key for key, get_hostnames() contains every Host pattern.",
     "note": "Match exec, canonicalisation and Include are outside the space; Match criteria are evaluated with "
             "paramiko's two-pass (always-final) flavour; the %C digest is only checked for shape",
@@ -117,7 +117,8 @@ SETTINGS = [
     ("hostname", "%h.x"), ("hostname", "b.c"),
     ("identityfile", "~/k1"), ("identityfile", "k2"), ("identityfile", "%r_key"),
     ("proxycommand", None), ("proxycommand", "nc %h %p"),
-    ("controlpath", "%C"), ("controlpath", "/t/%r@%h:%p"),
+    ("controlpath", "%C"), ("controlpath", "/t/%r@%h:%p"), ("controlpath", "%u-%n-%L-%l"),
+    ("identityfile", "%d/i_%u"),
 ]
 KEYNAMES = {"user": "User", "port": "Port", "hostname": "HostName", "identityfile": "IdentityFile",
             "proxycommand": "ProxyCommand", "controlpath": "ControlPath"}
@@ -262,7 +263,8 @@ def check_config(glob, blocks, acc, style=0, want_detail=False):
     rb = ref_blocks(glob, blocks)
     has_match = any(h[0] == "match" for h, _ in blocks)
     rep = {"text": text, "glob": glob, "blocks": blocks, "style": style}
-    acc.ev()
+    acc.ev()                    # parse + get_hostnames; each lookup below counts as one more evaluation
+    acc.count("configs")
     try:
         cfg = SSHConfig.from_text(text)
     except Exception as e:      # every generated config is parseable by construction
@@ -415,7 +417,6 @@ def main(tier):
          "the %C digest is checked for shape (40 hex digits) only",
          "Match exec, canonicalisation, Include outside the space"])
     items = build_items(tier)
-    # group small items so that one work unit is >= ~50 ms
     ck.merge(core.pmap(items, run_any, init=core.unpin))   # single-threaded work: no CPU pinning
     sp = space(tier)
     ck.extra["bound"] = {
@@ -432,7 +433,7 @@ def main(tier):
                                                                        len(sp["x3"][2])),
         "S2": "every sequence of <=2 blocks, header in %r x body = every ordered 1-2 settings out of %d"
               % ([render_header(h).strip() for h in sp["hs"]], len(SETTINGS)),
-        "S3": "5 key-case/separator/quoting/CRLF styles x 182 bodies, as Host * body and as global section",
+        "S3": "5 key-case/separator/quoting/CRLF styles x %d bodies, as Host * body and as global section" % len(B2),
         "work_items": len(items),
     }
     return ck.finish()
